@@ -20,7 +20,7 @@ ASSUMPTIONS = ['min-freq is passed as a short decimal string; the oracle uses th
                'tables are constructed through ska build (one record arm+base+arm+N per cell), verified before judging']
 FILTERS = ['no-filter', 'no-const', 'no-ambig', 'no-ambig-or-const']
 REQUIRED = {t: ['filter:' + f for f in FILTERS] + ['rows_kept', 'rows_dropped', 'threshold_boundary_rows',
-                                                   'submultiset_relations_checked', 'float_sensitive_thresholds', 'pretreated_files', 'aligns_to_reused_output_file', 'large_tables', 'tables_over_65536_rows', 'alignments_over_65536_columns', 'tables_of_256+_samples', 'files_with_a_sample_without_kmers']
+                                                   'submultiset_relations_checked', 'float_sensitive_thresholds', 'pretreated_files', 'aligns_to_reused_output_file', 'large_tables', 'tables_over_65536_rows', 'alignments_over_65536_columns', 'tables_of_256+_samples', 'files_with_a_sample_without_kmers', 'runs_with_default_options']
             for t in ('quick', 'thorough')}
 
 
@@ -213,6 +213,16 @@ def run_case(desc, ctx):
         if desc.get('nrows', 0) > 65536:
             # settings that let (nearly) every row through, so that the output itself exceeds 65536 columns
             settings = [('no-filter', '0', False, False, False), ('no-ambig', '0', False, False, False), ('no-filter', '0', False, True, False)] + settings[::3]
+        if variant == 'rel' and not desc.get('nrows'):
+            # no option at all: the documented defaults (--filter no-const, --min-freq 0.9, no flag) apply
+            n0, s0, p0 = G.align_output(ctx, [ctx.path('t.skf')], binary=b)
+            res.evals += 1
+            if n0 is None or sorted(M.columns(s0)) != expected_cols(rows, ns, 'no-const', '0.9', False, False, False) or n0 != names_exp:
+                res.violate('C06:defaults', 'k=%d ns=%d: `ska align` without options gives %s columns, the documented defaults (no-const, min-freq 0.9) give %d: %s'
+                            % (k, ns, None if s0 is None else len(M.columns(s0)), len(expected_cols(rows, ns, 'no-const', '0.9', False, False, False)), p0.stderr.strip()[-120:]),
+                            {'rows': rows})
+            else:
+                res.count('runs_with_default_options')
         for (filt, mf, fam, mask, nogap) in settings:
             args = [ctx.path('t.skf'), '--filter', filt, '--min-freq', mf] + (['--filter-ambig-as-missing'] if fam else []) \
                 + (['--ambig-mask'] if mask else []) + (['--no-gap-only-sites'] if nogap else [])
